@@ -345,6 +345,9 @@ class RefParser:
         self.base_ctx = Ctx(skipws, ws if ws is not None else '\t\n\r ')
         self.kinds = rule_kinds(g)
         self.steps = 0
+        # every terminal match of the derivation built so far, suppressed ones included (start, end): the text an object
+        # matched begins at its first and ends at its last terminal, whether or not the terminal is kept in the tree
+        self.tlog = []
 
     def mk(self, tok, ctx, before):
         tok.ws = ctx.eff_ws() if ctx.skipws else ''
@@ -362,6 +365,13 @@ class RefParser:
 
     # whitespace + comments before a terminal
     def skip(self, pos, ctx):
+        n0 = len(self.tlog)
+        try:
+            return self.skip_(pos, ctx)
+        finally:
+            del self.tlog[n0:]
+
+    def skip_(self, pos, ctx):
         t = self.t
         if ctx.skipws:
             w = ctx.eff_ws()
@@ -389,11 +399,16 @@ class RefParser:
         c = ctx
         if r.skipws is not None or r.ws is not None:
             c = Ctx(ctx.skipws if r.skipws is None else r.skipws, ctx.ws if r.ws is None else r.ws, ctx.eolterm, ctx.in_comment)
+        n0 = len(self.tlog)
         p, trees = self.ex(r.body, pos, c)
         trees = flat(trees)
         st = trees[0].start if trees else p
         en = trees[-1].end if trees else p
-        return p, Node(r.name, trees, st, en)
+        nd = Node(r.name, trees, st, en)
+        toks = self.tlog[n0:]
+        # the matched text (suppressed terminals included); (start, end) above is the text of the terminals that are kept
+        nd.sstart, nd.send = (toks[0][0], max(max(e_ for _, e_ in toks), en)) if toks else (st, en)
+        return p, nd
 
     def base(self, name, pos, ctx):
         if name in BASE_CHOICE:
@@ -407,13 +422,22 @@ class RefParser:
         m = re.compile(BASE[name], re.M).match(self.t, p)
         if not m:
             raise Fail()
+        if m.end() > p:
+            self.tlog.append((p, m.end()))
         return m.end(), [self.mk(Tok(name, m.group(), p, m.end(), m), ctx, pos)]
 
     def ex(self, e, pos, ctx):
         self.steps += 1
         if self.steps > 200000:
             raise RecursionError('ref budget')
-        p, trees = self.ex_(e, pos, ctx)
+        n0 = len(self.tlog)
+        try:
+            p, trees = self.ex_(e, pos, ctx)
+        except Fail:
+            del self.tlog[n0:]
+            raise
+        if isinstance(e, And):
+            del self.tlog[n0:]
         if getattr(e, 'suppress', False):
             trees = []
         return p, trees
@@ -429,6 +453,8 @@ class RefParser:
             if ok:
                 tk = self.mk(Tok('lit', e.s, p, p + n), ctx, pos)
                 tk.written = t[p:p + n]
+                if n:
+                    self.tlog.append((p, p + n))
                 return p + n, [tk]
             raise Fail()
         if isinstance(e, Re):
@@ -436,6 +462,8 @@ class RefParser:
             m = re.compile(e.pat, re.M | (re.I if self.ignore_case else 0)).match(t, p)
             if not m:
                 raise Fail()
+            if m.end() > p:
+                self.tlog.append((p, m.end()))
             return m.end(), ([self.mk(Tok('re', m.group(), p, m.end(), m), ctx, pos)] if m.end() > p else [])
         if isinstance(e, Ref):
             if e.name in BASE_NAMES and self.g.rule(e.name) is None:
@@ -487,6 +515,7 @@ class RefParser:
         p = pos
         n = 0
         while True:
+            nlog = len(self.tlog)
             try:
                 p2 = p
                 sep_tr = []
@@ -499,8 +528,11 @@ class RefParser:
             except Fail:
                 if 'dangling-separator' in self.emulate and collect_sep:
                     out.extend(sep_tr)
+                else:
+                    del self.tlog[nlog:]
                 break
             if p3 == p:
+                del self.tlog[nlog:]
                 break          # no progress: stop (PEG would loop)
             if collect_sep:
                 out.extend(sep_tr)
@@ -567,6 +599,7 @@ class RefParser:
         n = 0
         dangling_end = None
         while True:
+            nlog = len(self.tlog)
             try:
                 p2 = p
                 sp = []
@@ -579,8 +612,11 @@ class RefParser:
             except Fail:
                 if 'dangling-separator' in self.emulate and sp:
                     dangling_end = sp[-1].end
+                else:
+                    del self.tlog[nlog:]
                 break
             if p3 == p:
+                del self.tlog[nlog:]
                 break
             items.append(tr)
             seps.append(sp)
@@ -590,7 +626,8 @@ class RefParser:
             raise Fail()
         if n == 0:
             return p, []
-        end = dangling_end if dangling_end is not None else p
+        # end of the last terminal that is kept in the tree (a suppressed tail of the last item is not)
+        end = dangling_end if dangling_end is not None else (items[-1][-1].end if items[-1] else p)
         if 'dangling-separator' in self.emulate and items[-1]:
             # a separator left dangling inside the last item extends that item and therefore the list
             end = max(end, items[-1][-1].end)
@@ -753,6 +790,7 @@ class Builder:
         rule = self.g.rule(node.rule)
         o = RObj(node.rule)
         o.start, o.end = node.start, node.end
+        o.sstart, o.send = getattr(node, 'sstart', node.start), getattr(node, 'send', node.end)
         mult = attr_mult(rule.body)
         types = attr_types(self.g, rule)
         for a, m in mult.items():
